@@ -151,6 +151,8 @@ func VC05_Racing() {
 	w := newWorld(worldOpts{nBackends: 2})
 	extra := &vBackend{addr: "10.0.1.3:5060"}
 	add := rt.Bool("add")
+	w.rr.index = rt.Choice("rotation", 2) // either backend may be next
+	rt.Sched(rt.Param("SW"), true)        // SW forced context switches at lock / channel points, besides the blocking ones
 	req := func(i int) string {
 		return "OPTIONS sip:u@" + wService + " SIP/2.0\r\nVia: SIP/2.0/UDP 10.0.2.2:5060;branch=z9hG4bKr" + itoa(i) + "\r\nFrom: <sip:alice@example.com>;tag=a\r\nTo: <sip:u@" + wService +
 			">\r\nCall-ID: r" + itoa(i) + "\r\nCSeq: 1 OPTIONS\r\nContent-Length: 0\r\n\r\n"
@@ -182,8 +184,10 @@ func VC05_Racing() {
 	}
 	rt.Assert(total == 1, "racing: the request reaches exactly one backend")
 	if !add {
-		// (the removed backend may still have received the racing request)
+		// (the removed backend may still have received the racing request — but only while it was registered: the pool
+		// closes a backend when it removes it, and a closed backend is handed nothing)
 		rt.Assert(len(w.bs[0].sent) <= 1, "racing: nothing is sent twice")
+		rt.Assert(w.bs[0].afterClose == 0, "racing: a dispatch goes to a backend registered at that moment, never to one the pool has already closed")
 	}
 	// afterwards the rotation runs over the new set: n further requests reach each member once
 	members := []*vBackend{w.bs[1]}
